@@ -2410,6 +2410,10 @@ class TensorDict(TensorDictBase):
         return self._td_dim_names is not None
 
     def _erase_names(self):
+        if self._is_locked:
+            # reached from the names setter of a holder (which walks down the tree), under lock:
+            # the reads memoised by this node and by its other holders carry the old names
+            self._erase_cache_up()
         self._td_dim_names = None
 
     @property
